@@ -43,6 +43,7 @@ struct Elem {
     int b1 = -1, b2 = -1;               // attachment bodies of interaction elements (MobilizedBodyIndex as int)
     bool hasReference = true, reportsPE = false, damped = false, gradientForm = true;
     bool lastOpWasTopology = false;
+    bool documentedYankOut = false;     // reported dissipation may miss the energy lost when the force is clamped to zero
     Stage evalStage = Stage::Velocity, peStage = Stage::Position;
     double fdStep = 1e-3;
     virtual ~Elem() {}
@@ -59,6 +60,8 @@ struct Elem {
     virtual void checkGetters(Ctx&, FCase&, const State&, const Ref&, const std::string&) {}
     virtual double reportedDissipation(FCase&, const State&) { return NaN; }
     virtual void actionScale(FCase&, const State&, const Ref* r, double& aF, double& aM) { if (r) { aF = r->aF; aM = r->aM; } }
+    virtual double fdStepFor(FCase&, const State&) { return fdStep; }
+    virtual bool pureTwoBody() { return true; }   // false when a third body takes part (cable via point)
     virtual Json describe() { return Json::obj(); }
 };
 
